@@ -5,13 +5,14 @@ import sys
 from mc import core, hist, lib
 
 ENGINE = "E1-sweep"
+TICK_EVERY = 5      # every 5th case of every unit is repeated with numpy integer ticks (int64 / int32)
 RULE = ("all well-formed sequences on the tick lattice (pairs over the full lattice, triples/quads over a reduced one, "
         "notes + 1-2 signature events on every tick incl. boundaries and the final tick, cap variants) x all capacity "
         "lists of length 1..3 over {2,3,5} + lists longer than the sequence; distinct = distinct (notes, events, dur, "
         "capacities, build); non-trivial = a note crosses a boundary or an event sits on one")
 SCALE = ('16-120 notes under 8 capacity lists; four-channel chorales of 45/100/250 beats (eight note messages on every boundary tick) with 0..8 leading events shifting every message index, 5 capacity lists; one call returning 1320 pieces')
 ASSUMPTIONS = ["source sequences are well-formed with integer ticks (property precondition)"]
-REQUIRED_FLAGS = ["after_history", "note_crosses_two_boundaries", "event_on_boundary", "event_on_final_tick", "same_pitch_two_channels",
+REQUIRED_FLAGS = ["capacities_not_a_list", "after_history", "note_crosses_two_boundaries", "event_on_boundary", "event_on_final_tick", "same_pitch_two_channels",
                   "remainder_piece", "capacities_longer_than_sequence", "trailing_rest", "leading_rest"]
 
 PITCH_VARIANTS = [60, 21, 107, 64]
@@ -77,6 +78,10 @@ def units(ctx):
     yield ("slices",)
 
 
+def gen_cases(unit, ctx):
+    return lib.with_carriers(_gen_cases(unit, ctx), 6, "capcarrier")
+
+
 def _mk(notes):
     return [[n[0], n[1], n[2], n[3], 30 + 9 * i] for i, n in enumerate(notes)]
 
@@ -88,7 +93,7 @@ def _emit(notes, events, build="abs"):
             yield {"notes": notes, "events": events, "dur": dur, "caps": caps, "build": build}
 
 
-def gen_cases(unit, ctx):
+def _gen_cases(unit, ctx):
     L = ctx["L"]
     p, (c0, c1) = ctx["p"], ctx["ch"]
     kind = unit[0]
@@ -217,7 +222,12 @@ def check_case(case, ctx):
     D = max([n[0] + n[1] for n in notes] + [e[1] for e in events] + [dur or 0])
     before = lib.obs(src)
     try:
-        pieces = src.split(list(caps))
+        caps_arg = list(caps)
+        if case.get("capcarrier"):
+            # the same capacities handed over as a tuple / generator / iterator / map object / numpy array
+            caps_arg = lib.carriers(caps)[case["capcarrier"]]()
+            R.flags.append("capacities_not_a_list")
+        pieces = src.split(caps_arg)
     except Exception as e:  # noqa: BLE001
         R.bad("split_raises", f"{type(e).__name__}: {e}")
         R.nontrivial = True
